@@ -254,7 +254,7 @@ fn built_in() -> Vec<String> {
 }
 
 pub fn run(o: &Opts, rec: &mut Recorder) {
-    rec.rule = "encoder scripts from a seeded structured generator: 2-170 names per script built from a small family of base domains and prefix labels (shared suffixes, exact repeats, mixed case, a label unique to the script to force new candidates, root, relative names), modes Compressed/Uncompressed/UncompressedLowercase/with_rdata_behavior x canonical_form, record-shaped groups with RDLENGTH place/back-patch, > 64 candidates, > 120 compressed names, a filler moving the offset across 0x3FFF, names of 240-255 octets, one script in ten under a limit of 0-89 octets; a case is non-trivial when at least one name was written with a compression pointer and at least two names were round-trip checked; distinct by case line.  Stage 2: assembled messages of the modelled RDATA types (asm: decode-after-encode equals the assembled value; rt: from_vec/to_vec/from_vec), messages of every RDATA variant from the C01 generator and their mutations (rt); a message case is non-trivial when it round-trips and is longer than 40 octets.  Directed families in every tier: EDNS options over their whole parameter range, fresh RecordTypeSets, per-type RDATA boundaries, SVCB key ranges, Edns rcode_high against the response code (incl. no Edns, and Edns::emit as second OPT encoder), every code of every enum an RDATA codec maps (CERT, SSHFP, TLSA, DNSKEY, DS, RRSIG, KEY flags, NSEC3, CAA, TSIG names and errors, EDNS codes), the decoder refusals above the RDATA level, messages assembled through every public constructor and Message entry point, messages holding a record that cannot be encoded (badrec), names around offset 0x3FFF".into();
+    rec.rule = "encoder scripts from a seeded structured generator: 2-170 names per script built from a small family of base domains and prefix labels (shared suffixes, exact repeats, mixed case, a label unique to the script to force new candidates, root, relative names), modes Compressed/Uncompressed/UncompressedLowercase/with_rdata_behavior x canonical_form, record-shaped groups with RDLENGTH place/back-patch, > 64 candidates, > 120 compressed names, a filler moving the offset across 0x3FFF, names of 240-255 octets, one script in ten under a limit of 0-89 octets; a case is non-trivial when at least one name was written with a compression pointer and at least two names were round-trip checked; distinct by case line.  Stage 2: assembled messages of the modelled RDATA types (asm: decode-after-encode equals the assembled value; rt: from_vec/to_vec/from_vec), messages of every RDATA variant from the C01 generator and their mutations (rt); a message case is non-trivial when it round-trips and is longer than 40 octets.  Directed families in every tier: EDNS options over their whole parameter range, fresh RecordTypeSets, per-type RDATA boundaries, SVCB key ranges, Edns rcode_high against the response code (incl. no Edns, and Edns::emit as second OPT encoder), every code of every enum an RDATA codec maps (CERT, SSHFP, TLSA, DNSKEY, DS, RRSIG, KEY flags, NSEC3, CAA, TSIG names and errors, EDNS codes), the decoder refusals above the RDATA level, messages assembled through every public constructor and Message entry point, messages holding a record that cannot be encoded (badrec), names around offset 0x3FFF, every 4-bit opcode x message type x header flag patterns x 4-bit response codes (asm + rt)".into();
     for l in o.pre_lines.clone() {
         exec(&l, rec);
     }
